@@ -27,7 +27,7 @@ BLOCKS = {'BasicLatin': [(0, 0x7F)], 'Latin-1Supplement': [(0x80, 0xFF)], 'Greek
 ATOMS = ['a', 'b', 'Z', '0', ' ', '-', ':', '\\.', '\\-', '\\n', '\\\\', '\\|', '.', '\\d', '\\D', '\\s', '\\S', '\\w', '\\W',
          '\\i', '\\I', '\\c', '\\C', '\\p{Lu}', '\\P{Nd}', '\\p{L}', '\\p{IsBasicLatin}', '\\P{IsBasicLatin}', '\\p{Zs}',
          '[abc]', '[a-c]', '[^a]', '[^a-c\\d]', '[\\d-[5]]', '[a-z-[aeiou]]', '[^a\\D]', '[^\\s]', '[\\S\\d]', '[\\-a]', '[a\\-]',
-         '[^\\W\\d]', '[\\w-[\\d]]', '[\\D\\W]', '[^\\D\\S]', '[a-]', '[-a]', '[\\p{Lu}-[A-F]]', '[^\\p{L}]', '[\\n\\r\\t]', '[.]', '[$^]', '[\\^]']
+         '[^\\W\\d]', '[\\w-[\\d]]', '[\\D5-[5]]', '[\\S -[ q]]', '[\\P{L}a-z-[aeiou]]', '[\\Da-[\\Db]]', '[^a-[\\Db]]', '[\\D\\W]', '[^\\D\\S]', '[a-]', '[-a]', '[\\p{Lu}-[A-F]]', '[^\\p{L}]', '[\\n\\r\\t]', '[.]', '[$^]', '[\\^]']
 QUANTS = ['', '?', '*', '+', '{2}', '{1,2}', '{2,}']
 INVALID = ['(', ')', 'a)', '(a', '[', '[a', '[]', '[^]', 'a{2,1}', '*a', '+', '?', '{2}', 'a**', 'a+*', 'a{', 'a{x}', '\\q', '\\p{Xx}',
            '\\p{', '\\pL', '[b-a]', '[a-\\d]', 'a|*', '(?=a)', '(?i)a', '[[a]]', '\\', '[a-c-e]', '\\1', '[\\1]', ']', 'a]']
